@@ -477,12 +477,13 @@ def validate_traces(sc, d, module, cfg, trace_path, shards=None, timeout=1800, h
 # ---------------------------------------------------------------------------
 # running the real code on many cases, robust to crashes and hangs
 
-def harness_map(sc, vh, cmd, items, chunk=20000, base_timeout=30.0, per_item=0.002, extra_args=()):
+def harness_map(sc, vh, cmd, items, chunk=20000, base_timeout=30.0, per_item=0.002, extra_args=(), max_bad=40):
     """Run `vh <cmd> <in> <out>` over items (one JSON line each, one JSON result line each).
-    A chunk that crashes (fatal error, e.g. stack exhaustion) or exceeds its time budget is
-    bisected until the single offending item is isolated; that item's result is
-    {"crash": "..."} or {"hang": True}.  Budget: base_timeout + per_item * len (generous:
-    the normal cost is microseconds per item)."""
+    The harness flushes each result before it starts the next item (VH_FLUSH): when a run crashes (fatal error,
+    e.g. stack exhaustion) or exceeds its time budget, the results written so far are kept, the item it was
+    working on gets {"crash": "..."} or {"hang": True}, and the run resumes behind it.  Budget: base_timeout +
+    per_item * len (generous: the normal cost is microseconds per item).  After max_bad such items in one chunk
+    the rest of the chunk gets {"crash": "not run: ..."} (the violations found are reported; nothing is passed)."""
     from concurrent.futures import ThreadPoolExecutor
     results = [None] * len(items)
     counter = [0]
@@ -496,36 +497,45 @@ def harness_map(sc, vh, cmd, items, chunk=20000, base_timeout=30.0, per_item=0.0
         status = "ok"
         detail = ""
         try:
-            rc, out = run([vh, cmd, fin, fout] + list(extra_args), timeout=base_timeout + per_item * (b - a))
+            rc, out = run([vh, cmd, fin, fout] + list(extra_args), timeout=base_timeout + per_item * (b - a), env={"VH_FLUSH": "1"})
             if rc != 0:
                 status, detail = "crash", out[-1500:]
         except ToolFailure as e:
             status, detail = "hang", str(e)[:200]
         got = []
-        if status == "ok":
-            got = read_ndjson(fout)
-            if len(got) != b - a:
-                status, detail = "crash", "short output: %d of %d" % (len(got), b - a)
+        if os.path.exists(fout):
+            with open(fout) as f:
+                for l in f.read().split("\n"):
+                    if not l:
+                        continue
+                    try:
+                        got.append(json.loads(l))
+                    except ValueError:
+                        break               # a record cut off by the crash
+        if status == "ok" and len(got) != b - a:
+            status, detail = "crash", "short output: %d of %d" % (len(got), b - a)
         for f in (fin, fout):
             try:
                 os.remove(f)
             except OSError:
                 pass
-        if status == "ok":
-            results[a:b] = got
-            return None
-        return status, detail
+        return status, detail, got[:b - a]
 
     def solve(a, b):
-        r = run_range(a, b)
-        if r is None:
-            return
-        if b - a == 1:
-            results[a] = {"crash": r[1]} if r[0] == "crash" else {"hang": True, "detail": r[1]}
-            return
-        m = (a + b) // 2
-        solve(a, m)
-        solve(m, b)
+        nbad = 0
+        while a < b:
+            status, detail, got = run_range(a, b)
+            results[a:a + len(got)] = got
+            a += len(got)
+            if status == "ok" or a >= b:
+                return
+            results[a] = {"crash": detail} if status == "crash" else {"hang": True, "detail": detail}
+            a += 1
+            nbad += 1
+            if nbad >= max_bad:
+                for i in range(a, b):
+                    results[i] = {"crash": "not run: %d earlier items of this chunk crashed or hung" % nbad}
+                return
 
     ranges = [(a, min(a + chunk, len(items))) for a in range(0, len(items), chunk)]
     with ThreadPoolExecutor(max_workers=NCPU) as ex:
